@@ -89,8 +89,11 @@ Tag(r) ==
 \* outputs that do not add up are not a matter of policy: no filter can make them acceptable
 Downgradable(r) == r \notin {"overflow", "underflow"}
 
-\* ---- the policy filter: the first matching rule decides, no match = error
-SegPrefix(p, t) == Len(p) <= Len(t) /\ \A i \in 1..Len(p) : p[i] = t[i]
+\* ---- the policy filter: the first matching rule decides, no match = error.
+\* A tag is the sequence of its '-'-separated words.  A prefix rule stands for the string of
+\* its words each followed by '-' (<< >> is the empty prefix, which matches every tag), so it
+\* matches exactly the tags that properly extend it.
+SegPrefix(p, t) == Len(p) < Len(t) /\ \A i \in 1..Len(p) : p[i] = t[i]
 Matches(fr, tag) == IF fr.prefix THEN SegPrefix(fr.tag, tag) ELSE fr.tag = tag
 RECURSIVE WarnFrom(_, _, _)
 WarnFrom(f, tag, i) == IF i > Len(f) THEN FALSE
@@ -251,11 +254,18 @@ TriggeredOnchain(pol, ch, n) ==
 
 \* sign_counterparty_commitment_tx_phase2 / validate_holder_commitment_tx_phase2 with counterparty
 \* signatures that verify and payments that are approved; nh = next holder commitment number
+\* After validation the transactions are rebuilt (LDK): a second-level HTLC transaction whose fee
+\* exceeds the HTLC cannot be built ("builder": an internal error, or no signature can exist)
+Unbuildable(s, r) ==
+  /\ s.ctype # "zerofee"
+  /\ \/ \E i \in 1..Len(r.off) : Lt(r.off[i].v, Div(MulInt(r.feerate, TimeoutW(s.ctype)), 1000))
+     \/ \E i \in 1..Len(r.rcv) : Lt(r.rcv[i].v, Div(MulInt(r.feerate, SuccessW(s.ctype)), 1000))
 StepCommit(pol, s, ch, side, n, r, nh, Sw) ==
-  Resp(FirstBinding(pol.filter,
-         (IF side = "cp" THEN Opt(Gt(s.value, pol.max_chan), "chan_size") ELSE << >>)
-      \o (IF side = "cp" \/ nh <= n THEN TriggeredOnchain(pol, ch, n) ELSE << >>)
-      \o TriggeredCommon(pol, s, ch, side, n, r, Sw), 1))
+  LET v == FirstBinding(pol.filter,
+             (IF side = "cp" THEN Opt(Gt(s.value, pol.max_chan), "chan_size") ELSE << >>)
+          \o (IF side = "cp" \/ nh <= n THEN TriggeredOnchain(pol, ch, n) ELSE << >>)
+          \o TriggeredCommon(pol, s, ch, side, n, r, Sw), 1) IN
+  Resp(IF v = "none" /\ Unbuildable(s, r) THEN "builder" ELSE v)
 
 (***************************************************************************)
 (* 3. LIFE CYCLE OF ONE CASE AND THE PROPERTY                               *)
